@@ -38,11 +38,11 @@ CHECKS = {
             "Reported level sequences are compared with the replay of the accesses for every placement of the accessing "
             "tasks on the horizon (exhaustive per cell), both buffer kinds, all bound combinations; extrema are steered "
             "with both optimisers.", "7 C09"),
-    "C11": ("runtime monitoring: field-by-field consistency post-condition on every SchedulingSolution built, steered over the resource catalogue",
+    "C11": ("runtime monitoring: field-by-field consistency post-condition on every SchedulingSolution built (first and later solutions of one solver), steered over the resource catalogue and calendars",
             "Universal post-condition (task view <=> resource view, spans, cumulative folding, horizon, calendar "
             "arithmetic, report = model) evaluated on ~3k steered solutions (quick) over calendar and horizon variants.",
             "7 C11"),
-    "C07": ("runtime monitoring + fault injection: optimiser runs undisturbed and interrupted (max_iter, virtual clock, forced unknown), two independent reference optima",
+    "C07": ("runtime monitoring + fault injection: optimiser runs undisturbed, interrupted (max_iter, virtual clock, forced unknown) and on problems declared in stages; two independent reference optima; found-vs-announced-vs-returned schedules at the z3 check() boundary",
             "Undisturbed runs of both optimisers are compared with a brute-force optimum over the enumerated valid set and with "
             "a fresh instance asked for a strictly better value; every interruption point of the incremental loop is injected "
             "and the returned schedule must be valid and equal to the best incumbent the loop reported.", "7 C07"),
@@ -50,25 +50,25 @@ CHECKS = {
             "Each reported indicator value is recomputed from its documented definition on the very schedule it was delivered "
             "with, over horizons that do and do not divide 100, cost coefficients incl. 0/1/odd, optional and selected "
             "assignments; indicators are also minimised and maximised with both optimisers.", "7 C08"),
-    "C10": ("runtime monitoring: truth-table differential over fresh solver instances + pinned applied flags + refsem clauses",
+    "C10": ("runtime monitoring: truth-table differential over fresh solver instances (nested and shared operands) + pinned applied flags of optional constraints and connectives + refsem clauses",
             "admit(P + F(A,B), c) is compared with F(admit(P + A, c), admit(P + B, c)) for the six connectives, nested formulas "
             "to depth 3 and every candidate of the placement grid (all operand valuation patterns reached and counted); "
             "optional constraints are decided by pinning every subset of applied flags.", "7 C10"),
-    "C12": ("runtime monitoring: enumeration histories of one solver object checked offline against the fresh-instance reference set",
+    "C12": ("runtime monitoring: enumeration histories of one solver object (with and without objective, requests after a failure) checked offline against the fresh-instance reference set",
             "solve / find_another_solution* histories run to exhaustion on bounded problems must be duplicate-free walks of "
             "exactly the reference set T(P) obtained from fresh single-use instances; variable requests must change the variable.",
             "7 C12"),
-    "C13": ("runtime monitoring: call histories (exhaustive to length 4, random to 10, two interleaved objects) against a sequential excluded-set model",
+    "C13": ("runtime monitoring: call histories (exhaustive to length 4, random to 10, two interleaved objects, all optimiser configurations incl. max_iter) against a sequential excluded-set model + frame-depth invariant",
             "Every history over the public solver calls is replayed on the real object and judged by a 30-line sequential "
             "model whose state is the set of legitimately excluded timings; ~20k executions (quick).", "7 C13"),
-    "C14": ("runtime monitoring: metamorphic twins (renaming, permutation) and fresh-interpreter reference vs nasty in-process prefixes",
+    "C14": ("runtime monitoring: metamorphic twins (renaming incl. computed name collisions and same names across kinds, real permutations of every declaration list, interleaved declaration around another problem's solve) and fresh-interpreter reference vs nasty in-process prefixes",
             "Feasibility verdict, optimum and the admit() vector over a shared sample of timing candidates must be invariant "
             "under consistent renaming, permutation inside declaration stages, and under any prefix of other problems built "
             "or solved earlier in the same process (compared with a fresh interpreter).", "7 C14"),
-    "C15": ("runtime monitoring: configuration grid (optimizer x parallel x random x debug x logics) with fragment analysis, soundness clauses on every schedule",
+    "C15": ("runtime monitoring: configuration grid (optimizer x priority x parallel x random x debug x logics x verbosity x intermediate states) with fragment analysis, every configuration asked twice, soundness clauses on every schedule",
             "Each Spec is solved under ~60 configurations; every returned schedule is judged by the C01-C04/C09 clauses and all "
             "definite answers inside the selected logic's fragment must agree on feasibility and optimum.", "7 C15"),
-    "C16": ("runtime monitoring: exports read back with independent readers (json, csv, zip+xml, external z3 binary), round trips",
+    "C16": ("runtime monitoring: exports under every documented argument read back with independent readers (json, csv, data frame, zip+xml, external z3 binary before and after solves), round trips",
             "JSON/CSV/XLSX bytes written by the library are parsed by readers that share no code with it and compared field by "
             "field with the solution; SMT-LIB exports are consumed by the external z3 4.8.12 binary and its model is pinned "
             "back into a fresh instance.", "7 C16"),
@@ -79,7 +79,7 @@ CHECKS = {
     "C18": ("runtime monitoring: boundary-value table of constructor calls (fresh problem each, fresh interpreter for the no-problem rows) + catalogue build converse",
             "Accept-or-raise outcome of ~130 constructor calls on both sides of each boundary named by the statement, and of "
             "~1000 well-formed catalogue Specs, observed at the constructor boundary.", "7 C18"),
-    "C19": ("runtime monitoring: debug-mode runs on infeasible Specs, listed Constraint objects captured at the print boundary, reduced Spec re-solved",
+    "C19": ("runtime monitoring: debug-mode runs on infeasible Specs, listed Constraint objects captured at the print boundary, reduced Spec re-solved; debug-vs-plain differential on pinned problems and on call sequences",
             "The constraint objects the solver lists as conflicting are captured from its own print calls; the Spec reduced "
             "to them plus the basic rules is re-solved by a fresh non-debug instance and must be unsat; verdicts and "
             "schedules under debug are compared with non-debug runs.", "7 C19"),
